@@ -45,6 +45,19 @@ def class_state_cells(repo):
                         continue
                     if attr in c.class_attrs and (cname, attr) not in cells:
                         cells[(cname, attr)] = (c, c.class_attrs[attr], "written")
+    # an iterator kept in a class body (`_ids = itertools.count()`) is advanced, i.e. written, by `next(Cls._ids)` / `next(self._ids)`
+    for fn in repo.all_functions():
+        for n in ast.walk(fn):
+            if isinstance(n, ast.Call) and isinstance(n.func, ast.Name) and n.func.id == "next" and n.args and isinstance(n.args[0], ast.Attribute) \
+                    and isinstance(n.args[0].value, ast.Name):
+                base, attr = n.args[0].value.id, n.args[0].attr
+                r = repo.resolve_name(fn._module, base)
+                c = r if isinstance(r, ClassInfo) else (getattr(fn, "_cls", None) if base in ("self", "cls") else None)
+                if c is None:
+                    continue
+                owner = next((k for k in c.mro() if attr in k.class_attrs), None)
+                if owner is not None and isinstance(owner.class_attrs[attr], ast.Call) and (owner.name, attr) not in cells:
+                    cells[(owner.name, attr)] = (owner, owner.class_attrs[attr], "written")
     return cells
 
 
@@ -161,6 +174,11 @@ def r_reset(ctx):
                     for g in ast.walk(fn):
                         if isinstance(g, ast.Global) and name in g.names and fn._module is m:
                             writers.append("%s: global %s" % (qualname(fn), name))
+                        elif isinstance(g, ast.Call) and isinstance(g.func, ast.Name) and g.func.id == "next" and g.args and isinstance(g.args[0], ast.Name) \
+                                and g.args[0].id == name and name not in params_of(fn) \
+                                and fn._module.imports.get(name, (m.modname,))[0] in (m.modname, "PEPit", m.modname.rsplit(".", 1)[0]) \
+                                and (fn._module is m or name in fn._module.imports):
+                            writers.append("%s:%d (advanced by next())" % (qualname(fn), g.lineno))
                 ctx.ob("R-RESET", "%s::%s" % (m.rel, name), not writers,
                        "module-level object is never written" if not writers else "module-level object written by %s" % writers, m.rel)
     ctx.count("module-level objects", n_glob)
@@ -281,6 +299,18 @@ def r_process_memo(ctx):
                % (nm, bad[0][2], qualname(bad[0][0]) if isinstance(bad[0][0], ast.FunctionDef) else "lambda", getattr(bad[0][1], "lineno", 0)),
                "%s:%d" % (m.rel, line))
     ctx.count("memoising decorators", len(memo))
+    # attributes of module-level functions used as storage (`helper._cache[key] = value`): a table with the life time of the process
+    for fn in nested:
+        if not isinstance(fn, ast.FunctionDef):
+            continue
+        for w in effects.writes_of(repo, fn):
+            if w.root.startswith("global:"):
+                nm0 = w.root.split(":", 1)[1]
+                r = repo.resolve_name(fn._module, nm0)
+                if isinstance(r, ast.FunctionDef):
+                    ctx.ob("R-RESET", "%s::%s::function attribute" % (fn._module.rel, nm0), False,
+                           "`%s` stores into an attribute of the function `%s`: the stored data lives as long as the process and PEP's reset routine does "
+                           "not clear it" % (norm_stmt(common.stmt_of(w.node))[:70], nm0), loc(fn, w.node))
     # default arguments evaluated once
     n_def = 0
     for fn in nested:
